@@ -435,8 +435,10 @@ fn forge(net: &Net, to: Addr, from: Addr, kind: u8, a: i32, b: i32, bytes: &[u8]
             None => (None, None),
         }
     };
-    let mut push = |m: MMessage| {
-        net.borrow_mut().inject(from, to, from_mirror(&m));
+    // kinds 0-3, 8, 9 keep the sender's real magic and address
+    let authentic_looking = matches!(kind, 0..=3 | 8 | 9);
+    let push = |m: MMessage| {
+        net.borrow_mut().inject(from, to, from_mirror(&m), authentic_looking);
         true
     };
     match kind {
